@@ -498,12 +498,13 @@ class Ctx:
         r = subprocess.run([str(exe)] + list(args), input="\n".join(lines) + "\n", capture_output=True, text=True, timeout=timeout)
         return r.stdout.splitlines(), r.returncode, r.stderr
 
-    def shrink(self, case, still_fails, budget=400):
-        """Delta-debugging over op lines."""
+    def shrink(self, case, still_fails, budget=400, seconds=20):
+        """Delta-debugging over op lines (bounded by number of trials and wall time)."""
         cur = list(case)
         n = 2
         calls = 0
-        while len(cur) >= 2 and calls < budget:
+        t_end = time.time() + seconds
+        while len(cur) >= 2 and calls < budget and time.time() < t_end:
             size = max(1, len(cur) // n)
             reduced = False
             for i in range(0, len(cur), size):
@@ -512,7 +513,7 @@ class Ctx:
                 if cand and still_fails(cand):
                     cur, n, reduced = cand, max(n - 1, 2), True
                     break
-                if calls >= budget:
+                if calls >= budget or time.time() >= t_end:
                     break
             if not reduced:
                 if size == 1:
